@@ -171,6 +171,55 @@ def exec_one(target, path, grant=False, timeout=1500):
     return res
 
 
+def same_failure(r, want_status, want_prop=None):
+    st = r.get("status")
+    if want_status == "mismatch":
+        return st == "ok" and r.get("digest") != r.get("native")
+    if st != want_status:
+        return False
+    if st == "violation" and want_prop:
+        return r["detail"]["property"] == want_prop
+    return True
+
+
+def minimise_exec(r, want_status, want_prop=None, max_rounds=6):
+    """Greedy one-operation-at-a-time removal, candidates of a round interpreted in parallel.
+    Digest mismatches are not minimised (the native digest of a shortened list is unknown here)."""
+    if want_status == "mismatch":
+        return None
+    cur = json.load(open(r["file"]))
+    tmpdir = os.path.join(BUILD, "tmp", "miri-min")
+    os.makedirs(tmpdir, exist_ok=True)
+    before = len(cur["ops"])
+    for rnd in range(max_rounds):
+        n = len(cur["ops"])
+        if n <= 1:
+            break
+        cands = []
+        for i in range(n):
+            c = dict(cur)
+            c["ops"] = cur["ops"][:i] + cur["ops"][i + 1:]
+            p = os.path.join(tmpdir, f"cand-{os.getpid()}-{rnd}-{i}.json")
+            json.dump(c, open(p, "w"))
+            cands.append((i, p))
+        with ThreadPoolExecutor(max_workers=16) as ex:
+            res = list(ex.map(lambda ip: (ip[0], exec_one(r["target"], ip[1], grant=r.get("grant", False))), cands))
+        removable = [i for i, x in res if same_failure(x, want_status, want_prop)]
+        for _, p in cands:
+            try:
+                os.remove(p)
+            except OSError:
+                pass
+        if not removable:
+            break
+        # drop the removable operations from the back, keeping the first one that alone suffices plus any that
+        # are independent of it is not known: remove one per round (the last removable), then re-test
+        i = removable[-1]
+        cur["ops"] = cur["ops"][:i] + cur["ops"][i + 1:]
+    cur.setdefault("meta", {})["minimised"] = {"ops_before": before, "ops_after": len(cur["ops"]), "method": "greedy single-operation removal under the interpreter"}
+    return cur
+
+
 def miri_exec_engine(prop, tier, seed):
     quick = tier == "quick"
     nlists = 8 if quick else 64
@@ -182,7 +231,21 @@ def miri_exec_engine(prop, tier, seed):
     a64_aes = export_lists(prop, seed + 1, 3 if quick else 24, 8 if quick else 14, 3, "a64aes", only=["aes128", "aes192", "aes256"],
                            variants=["aes_auto", "aes_auto_z", "aes_autoc_z", "aes_soft", "aes_alt_z"], pars=[21, 19, 17])
     a64_kuz = export_lists(prop, seed + 2, 2 if quick else 12, 6 if quick else 10, 2, "a64kuz", only=["kuznyechik"], variants=["kuz", "kuz_z", "kuz_compact_z"], pars=[8])
+    # deterministic batch-shape grids for the backends that exist only on aarch64 (both directions, in place and
+    # disjoint buffers, n = par, par+1, 2par+1 for ARMv8-CE 21/19/17 and NEON 8): C04/C03 only, one list per family
+    a64_grid = []
+    if prop in ("C04", "C03"):
+        gdir = os.path.join(BUILD, "tmp", f"exp-{prop}-a64grid")
+        os.makedirs(gdir, exist_ok=True)
+        for fam, var, par in (("aes128", "aes_auto_z", 21), ("aes192", "aes_auto", 19), ("aes256", "aes_autoc_z", 17), ("kuznyechik", "kuz_z", 8)):
+            outp = os.path.join(gdir, f"{prop}-grid-{fam}.json")
+            pr = subprocess.run([NATIVE, "export-target-grid", "--prop", prop, "--seed", str(seed), "--family", fam, "--variant", var, "--par", str(par), "--out", outp] + (["--compact"] if quick else []),
+                                capture_output=True, text=True)
+            if pr.returncode != 0:
+                raise RuntimeError("export-target-grid failed: " + pr.stderr[-300:])
+            a64_grid.append(outp)
     jobs = [(t, f, False) for t in ("x86_64", "i686") for f in files]
+    jobs += [("aarch64", f, True) for f in a64_grid]
     jobs += [("aarch64", f, True) for f in a64_aes] + [("aarch64", f, False) for f in a64_aes[: (1 if quick else 8)]]
     jobs += [("aarch64", f, True) for f in a64_kuz]
     # the AES-NI arm itself under the interpreter (x86_64, detection granted): same AES lists
@@ -212,8 +275,9 @@ def miri_exec_engine(prop, tier, seed):
         elif st == "violation":
             d = r["detail"]
             sig = f"{d['property']}/{d['class']}/{d['family']}/{d['variant']}"
+            small = minimise_exec(r, "violation", d["property"]) if (d["property"] == prop and len(viols) < 2) else None
             rp = write_replay(f"{base}-{r['target']}.miri.json", {"format": "block-ciphers-sim-replay/1", "property": d["property"], "engine": "miri",
-                              "mode": "exec", "target": r["target"], "grant": r.get("grant", False), "miriflags": "", "list": json.load(open(r["file"])), "violation": d})
+                              "mode": "exec", "target": r["target"], "grant": r.get("grant", False), "miriflags": "", "list": small or json.load(open(r["file"])), "violation": d})
             (viols if d["property"] == prop else notes).append((d["property"], sig, rp, d["detail"]))
         elif st in ("ub", "race", "deadlock"):
             p = attribute_ub(r.get("stderr_tail", ""), r.get("last_op"))
@@ -225,8 +289,9 @@ def miri_exec_engine(prop, tier, seed):
             if prop in concerns:
                 p = prop
             sig = f"{p}/miri-{st}/{r['target']}"
+            small = minimise_exec(r, st) if (p == prop and len(viols) < 2) else None
             rp = write_replay(f"{base}-{r['target']}.miri.json", {"format": "block-ciphers-sim-replay/1", "property": p, "engine": "miri",
-                              "mode": "exec", "target": r["target"], "grant": r.get("grant", False), "miriflags": "", "list": json.load(open(r["file"])),
+                              "mode": "exec", "target": r["target"], "grant": r.get("grant", False), "miriflags": "", "list": small or json.load(open(r["file"])),
                               "violation": {"property": p, "class": "miri-" + st, "detail": r.get("error"), "last_op": r.get("last_op"), "stderr_tail": r.get("stderr_tail", "")[-1500:]}})
             (viols if p == prop else notes).append((p, sig, rp, r.get("error", "")))
         else:
